@@ -50,11 +50,20 @@ pub struct BarCase {
 pub fn apply_model(st: &BarState, op: &BOp) -> BarState {
     let mut s = st.clone();
     match op {
-        BOp::Tick | BOp::Println(_) | BOp::Suspend(_) => {}
+        BOp::Tick => s.ticks += 1,
+        BOp::Println(_) | BOp::Suspend(_) => {}
         BOp::SetTabWidth(w) => s.tab_width = *w as usize,
         BOp::Restyle(t) => s.tpl = t.clone(),
-        BOp::Inc(d) => s.pos = s.pos.wrapping_add(*d),
-        BOp::SetPos(p) => s.pos = *p,
+        // (a position update ticks the spinner unless the bar's own 1 ms throttle drops it: templates with a
+        // spinner are only generated where the clock advances 2 ms per operation)
+        BOp::Inc(d) => {
+            s.pos = s.pos.wrapping_add(*d);
+            s.ticks += 1;
+        }
+        BOp::SetPos(p) => {
+            s.pos = *p;
+            s.ticks += 1;
+        }
         BOp::SetMessage(m) => s.msg = m.clone(),
         BOp::SetPrefix(m) => s.prefix = m.clone(),
         BOp::SetStyle(t) => s.tpl = t.clone(),
@@ -546,7 +555,22 @@ pub fn property() -> Property {
         parts: vec![Box::new(Gen::<BarCase> {
             name: "history",
             rule: "one bar on a VTerm of 1..=12 rows x 1..=40 (thorough 200) columns with a random simple template; 0-24 (thorough 40) ops from tick/inc/set_position/set_message/set_prefix/set_style/set_length/println/suspend/reset/finish*/abandon* with texts that are empty, zero-width, multi-line and around multiples of the width; after every flush and after every op the screen must equal printed lines ++ frame and the cursor must be on a fresh line; non-trivial = two painted frames of different height, or a text-only draw followed by a non-empty frame",
-            strategy: case_strategy,
+            // (one template in six shows a spinner: part `history` only, where every operation is 2 ms apart)
+            strategy: |t| {
+                (case_strategy(t), 0u8..6, any::<bool>())
+                    .prop_map(|(mut c, k, front)| {
+                        if k == 0 && !c.tpl.lines.is_empty() {
+                            let l = &mut c.tpl.lines[0];
+                            if front {
+                                l.insert(0, SPart::Spinner);
+                            } else {
+                                l.push(SPart::Spinner);
+                            }
+                        }
+                        c
+                    })
+                    .boxed()
+            },
             cases: |t| t.pick(12_000, 800_000),
             run: run_bar,
             signature,
